@@ -36,6 +36,8 @@ pub const DOP853_STIFF_TEST: usize = 19;
 pub const BDF_ORDER_CHANGE: usize = 20;
 pub const RADAU_REUSE_LU: usize = 21;
 pub const EVENT_ROOT_SEARCH: usize = 22;
+/// The output handler's own `while` loops (requested-time flushing, sample popping).
+pub const HANDLER_LOOP: usize = 23;
 /// Reserved for the simulator's own seam crossings.
 pub const SEAM: usize = 31;
 
@@ -74,6 +76,22 @@ pub fn tick(site: usize) {
     });
     if t > BUDGET.with(|b| b.get()) {
         // Disarm so that unwinding code cannot trip the watchdog again.
+        BUDGET.with(|b| b.set(u64::MAX));
+        std::panic::panic_any(Watchdog { ticks: t, site });
+    }
+}
+
+/// A tick that weighs `n`: for loops that allocate on every pass, so that a spinning one is
+/// stopped after budget/n passes (before it exhausts memory) while a healthy one costs nothing.
+#[inline]
+pub fn tick_n(site: usize, n: u64) {
+    SITES.with(|s| s[site].set(s[site].get() + 1));
+    let t = TICKS.with(|t| {
+        let v = t.get() + n;
+        t.set(v);
+        v
+    });
+    if t > BUDGET.with(|b| b.get()) {
         BUDGET.with(|b| b.set(u64::MAX));
         std::panic::panic_any(Watchdog { ticks: t, site });
     }
